@@ -33,7 +33,7 @@ def plan(tier):
 def floors(tier):
     return {"nontrivial": 40, "held:main": 150, "counter:exact_runs": 150, "counter:tau_runs": 150, "counter:rows_checked": 3000,
             "counter:intervals_checked": 3000, "counter:empty_paths": 10, "counter:states_only_runs": 80, "counter:unordered_grids_refused": 20, "counter:grids_past_extinction": 20,
-            "class:grid-integer-typed": 30, "class:grid-list": 30, "class:grid-tuple": 30, "class:grid-ndarray": 30, "class:grid-random": 50, "class:grid-uniform": 50,
+            "class:grid-integer-typed": 30, "class:grid-starts-after-t0": 30, "class:grid-list": 30, "class:grid-tuple": 30, "class:grid-ndarray": 30, "class:grid-random": 50, "class:grid-uniform": 50,
             "class:single-event": 5, "class:single-state": 5,
             "reach:SimulateOde._extractObservationAtTime": 300, "reach:SimulateOde._addJumpsBetweenTime": 300}
 
@@ -94,6 +94,12 @@ def run_case(rng, idx, tier, lane, ctx):
         step = max(1, K // 14)
         g = np.arange(0, K + 1, step).astype(float)
         cls.append("grid-integer-typed")
+    # a quarter of the grids start strictly after the initial time (the repository's own tests request t[1:]): the first row is then the
+    # state of the path at the first requested time, not the initial state
+    late_start = len(g) >= 4 and rng.random() < 0.25
+    if late_start:
+        g = g[1:]
+        cls.append("grid-starts-after-t0")
     cls.append("grid-" + form)
     gi = g.astype(int) if whole else g
     grid_arg = gi.tolist() if form == "list" else (tuple(gi.tolist()) if form == "tuple" else gi)
@@ -149,7 +155,7 @@ def run_case(rng, idx, tier, lane, ctx):
             if Jg.shape != (len(g) - 1, nE):
                 bad("gridded counts do not have one row per interval and one column per event", shape=list(Jg.shape), expected=[len(g) - 1, nE])
                 continue
-            if not np.array_equal(Xg[0], np.asarray(x0, dtype=float)):
+            if not late_start and not np.array_equal(Xg[0], np.asarray(x0, dtype=float)):
                 bad("first gridded row differs from the initial state", row0=Xg[0].tolist(), x0=x0)
             rows, counts, on_grid = reference_grid(raw, g, nE, exact)
             if on_grid:
@@ -198,7 +204,7 @@ def run_case(rng, idx, tier, lane, ctx):
                         if Xg.shape != (len(g), len(x0)):
                             wit.append({"what": "gridded states do not have one row per requested time", "config": cfg2, "shape": list(Xg.shape)})
                             continue
-                        if not np.array_equal(Xg[0], np.asarray(x0, dtype=float)):
+                        if not late_start and not np.array_equal(Xg[0], np.asarray(x0, dtype=float)):
                             wit.append({"what": "first gridded row differs from the initial state", "config": cfg2, "row0": Xg[0].tolist(), "x0": x0})
                         rows, _counts, on_grid = reference_grid(raw, g, nE, exact)
                         if exact and not on_grid:
